@@ -119,11 +119,11 @@ fn run_case<const N: usize, const CAP: usize>(c: &Case) -> Value {
         match t.as_str() {
             "RxBusy" => {
                 // an oversize reply claims the slot and fails in the copy
-                let r = rx.receive_frame(&reply(idxs[i], CAP - 15, CAP));
+                let r = prep_receive(&mut rx, &reply(idxs[i], CAP - 15, CAP));
                 assert!(r.is_err(), "oversize reply was accepted");
             }
             "RxDone" | "RxProcessing" => {
-                rx.receive_frame(&reply(idxs[i], 16, 0)).expect("reply");
+                prep_receive(&mut rx, &reply(idxs[i], 16, 0)).expect("reply");
                 if t == "RxProcessing" {
                     match futs[i].as_mut().unwrap().as_mut().poll(&mut cx) {
                         Poll::Ready(Ok(rf)) => {
@@ -163,6 +163,19 @@ fn run_case<const N: usize, const CAP: usize>(c: &Case) -> Value {
     v
 }
 
+/// `receive_frame` while the slot states are being prepared: a panic in there is the code under
+/// test misbehaving on the bytes it was given (an observation), not a failure of the harness.
+fn prep_receive(rx: &mut ethercrab::PduRx<'_>, bytes: &[u8]) -> Result<ethercrab::ReceiveAction, ethercrab::error::Error> {
+    match catch_unwind(AssertUnwindSafe(|| rx.receive_frame(bytes))) {
+        Ok(r) => r,
+        Err(e) => {
+            let msg = e.downcast_ref::<&str>().map(|s| s.to_string())
+                .or_else(|| e.downcast_ref::<String>().cloned()).unwrap_or_else(|| "panic".into());
+            panic!("receive_frame panicked while preparing: {msg}");
+        }
+    }
+}
+
 fn run(c: &Case) -> Value {
     match (c.targets.len(), c.cap) {
         (1, 40) => run_case::<1, 40>(c),
@@ -187,6 +200,9 @@ fn run_guarded(c: &Case) -> Result<Value, Option<String>> {
                 .or_else(|| e.downcast_ref::<String>().cloned()).unwrap_or_else(|| "panic".into());
             if msg.contains("oversize reply was accepted") {
                 return Err(Some("OversizeReplyAccepted".into()));
+            }
+            if let Some(m) = msg.strip_prefix("receive_frame panicked while preparing: ") {
+                return Err(Some(format!("PanicOnOversizeOrPlainReply: {m}")));
             }
             eprintln!("rxtriage: preparation failed for {}: {msg}", c.id);
             Err(None)
